@@ -242,7 +242,7 @@ func (cr *ChunkReader) parseAndRemoveChunkInfo(p []byte) (int, error) {
 		}
 	}
 
-	chunkSize, sig, bufOffset, err := cr.parseChunkHeaderBytes(p[:n], &n)
+	chunkSize, sig, bufOffset, err := cr.parseChunkHeaderBytes(p[:n])
 	if err == errskipHeader {
 		cr.chunkDataLeft = 0
 		return 0, nil
@@ -341,8 +341,10 @@ const (
 
 // This returns the chunk payload size, signature, data start offset, and
 // error if any. See the AWS documentation for the chunk header format. The
-// header[0] byte is expected to be the first byte of the chunk size here.
-func (cr *ChunkReader) parseChunkHeaderBytes(header []byte, l *int) (int64, string, int, error) {
+// header[0] byte is expected to be the first byte of the chunk size here,
+// preceded by the "\r\n" that closes the data of the previous chunk for
+// every chunk but the first.
+func (cr *ChunkReader) parseChunkHeaderBytes(header []byte) (int64, string, int, error) {
 	stashLen := len(cr.stash)
 	if stashLen > maxHeaderSize {
 		return 0, "", 0, errInvalidChunkFormat
@@ -355,18 +357,18 @@ func (cr *ChunkReader) parseChunkHeaderBytes(header []byte, l *int) (int64, stri
 		cr.stash = nil
 	}
 
-	rdr := bufio.NewReader(bytes.NewReader(header))
+	src := bytes.NewReader(header)
+	rdr := bufio.NewReader(src)
 
 	// After the first chunk each chunk header should start
-	// with "\n\r\n"
-	if !cr.isFirstHeader && stashLen == 0 {
+	// with "\r\n". It is parsed (and, when the header is split
+	// across two reads, stashed) as part of the header, so that
+	// the retry sees the same bytes again
+	if !cr.isFirstHeader {
 		err := readAndSkip(rdr, '\r', '\n')
 		if err != nil {
 			return cr.handleRdrErr(err, header)
 		}
-
-		copy(header, header[2:])
-		*l = *l - 2
 	}
 
 	// read and parse the chunk size
@@ -460,10 +462,12 @@ func (cr *ChunkReader) parseChunkHeaderBytes(header []byte, l *int) (int64, stri
 		return cr.handleRdrErr(err, header)
 	}
 
-	ind := bytes.Index(header, []byte{'\r', '\n'})
+	// the chunk data starts where the header parser stopped; the
+	// stashed bytes are not in the caller's buffer
+	hdrLen := len(header) - src.Len() - rdr.Buffered()
 	cr.isFirstHeader = false
 
-	return chunkSize, sig, ind + len(chunkHdrDelim) - stashLen, nil
+	return chunkSize, sig, hdrLen - stashLen, nil
 }
 
 // Stashes the header in cr.stash and returns "errskipHeader"
